@@ -146,6 +146,8 @@ type View struct {
 	dead bool
 	// BeforeSave, if set, is called before a file becomes durable (a gate).
 	BeforeSave func(path string)
+	// FailSave, if set, may return an error for a save: the file does not become durable (injected storage fault).
+	FailSave func(path string) error
 }
 
 func (s *Store) View(name, workingDir string) *View {
@@ -222,6 +224,11 @@ func (f *file) Write(p []byte) (int, error) {
 func (f *file) Save() error {
 	if f.v.BeforeSave != nil {
 		f.v.BeforeSave(f.path)
+	}
+	if f.v.FailSave != nil {
+		if err := f.v.FailSave(f.path); err != nil {
+			return err
+		}
 	}
 	f.mu.Lock()
 	defer f.mu.Unlock()
